@@ -407,6 +407,7 @@ func targetsList.Split.$1
 func targetsList.InsertSorted
   props C03 C12
   modifies t[*]
+  ensures fresh(result) || arrayof(result) == arrayof(t)
   ensures C03/insert-into-empty: old(len(t)) == 0 ==> len(result) == 1 && result[0] == version
   ensures C03/insert-duplicate: old(len(t) == 1 && t[0] == version) ==> len(result) == 1 && result[0] == version
   ensures C03/insert-after: old(len(t) == 1 && t[0] < version) ==> len(result) == 2 && result[0] == old(t[0]) && result[1] == version
